@@ -201,6 +201,8 @@ class Fn:
                 return c["n"], False
             if c["k"] == "DependentScopeDeclRefExpr":
                 return c["text"], False
+            if c["k"] == "CXXDependentScopeMemberExpr" and c.get("qual"):
+                return c["qual"] + c["n"], False
             if c["k"] in ("DeclRefExpr", "MemberExpr"):
                 return c.get("q", c["n"]), "q" in c
         if k == "CXXUnresolvedConstructExpr":
@@ -301,6 +303,84 @@ class Model:
             raise AnalysisBroken("anchor function %s: expected exactly one match, found %d (%s)" %
                                  (q, len(r), "; ".join(f.sig for f in r)))
         return r[0]
+
+    # ---- constants
+    def eval_nodes(self, nodes, nid, depth=0):
+        """integer value of an initialiser tree (literals, sibling constants, + - * << sizeof) or None"""
+        if nid is None or nid < 0 or depth > 12:
+            return None
+        n = nodes[nid]
+        if "cv" in n:
+            return n["cv"]
+        k = n["k"]
+        ch = n.get("ch", [])
+        if k in ("ParenExpr", "ImplicitCastExpr", "ConstantExpr", "ExprWithCleanups", "CXXFunctionalCastExpr",
+                 "CXXStaticCastExpr", "CStyleCastExpr", "SubstNonTypeTemplateParmExpr") and ch:
+            return self.eval_nodes(nodes, ch[0], depth + 1)
+        if k in ("InitListExpr", "CXXUnresolvedConstructExpr") and len(ch) == 1:
+            return self.eval_nodes(nodes, ch[0], depth + 1)
+        if k == "BinaryOperator" and len(ch) == 2:
+            a, b = self.eval_nodes(nodes, ch[0], depth + 1), self.eval_nodes(nodes, ch[1], depth + 1)
+            if a is None or b is None:
+                return None
+            op = n["op"]
+            try:
+                return {"+": a + b, "-": a - b, "*": a * b, "<<": a << b, ">>": a >> b, "|": a | b, "&": a & b,
+                        "/": a // b if b else None, "%": a % b if b else None}.get(op)
+            except Exception:
+                return None
+        if k in ("DeclRefExpr", "MemberExpr") and n.get("static"):
+            return self.const_of_var_id(n.get("d"), depth + 1)
+        if k == "DependentScopeDeclRefExpr":
+            return self.resolve_dep_const(n["text"], depth + 1)
+        if k == "CXXDependentScopeMemberExpr" and n.get("qual"):
+            return self.resolve_dep_const(n["qual"] + n["n"], depth + 1)
+        return None
+
+    def const_of_var_id(self, did, depth=0):
+        if not hasattr(self, "_var_by_id"):
+            self._var_by_id = {v["id"]: v for v in self.vars}
+        v = self._var_by_id.get(did)
+        if v is None:
+            return None
+        return self.const_of_var(v, depth)
+
+    def const_of_var(self, v, depth=0):
+        if isinstance(v.get("val"), int):
+            return v["val"]
+        if "_cval" in v:
+            return v["_cval"]
+        v["_cval"] = None
+        if v.get("init", -1) >= 0 and (v.get("constq") or v.get("constexpr")):
+            v["_cval"] = self.eval_nodes(v["nodes"], v["init"], depth + 1)
+        return v["_cval"]
+
+    def resolve_dep_const(self, text, depth=0):
+        """value of a dependent-scope constant such as `TagPatterns::TrueLength`: every static constant
+        of that name under a record whose name starts with the qualifier must agree"""
+        if not hasattr(self, "_depc"):
+            self._depc = {}
+        if text in self._depc:
+            return self._depc[text]
+        self._depc[text] = None
+        parts = text.split("::")
+        if len(parts) < 2:
+            return None
+        member, qual = parts[-1], parts[-2].split("<")[0]
+        vals = set()
+        for v in self.vars:
+            qp = v["q"].split("::")
+            if qp[-1] != member or len(qp) < 2:
+                continue
+            rec = qp[-2]
+            if not (rec == qual or rec.startswith(qual) or qual.startswith(rec.replace("_T", ""))):
+                continue
+            vals.add(self.const_of_var(v, depth + 1))
+        r = None
+        if len(vals) == 1 and None not in vals:
+            r = vals.pop()
+        self._depc[text] = r
+        return r
 
     def enum(self, q):
         r = [e for e in self.enums if e["q"] == q]
